@@ -113,9 +113,19 @@ class Msg:
         if oneof is not None:
             names = [o.name for o in self.pb.oneof_decl]
             if oneof not in names:
-                # real oneofs must precede synthetic ones; insert before the first synthetic
-                self.pb.oneof_decl.add(name=oneof)
-                names.append(oneof)
+                # real oneofs must precede synthetic (proto3-optional) ones: insert before the first synthetic
+                nreal = sum(1 for n in names if not n.startswith("_"))
+                if nreal < len(names):
+                    for other in self.pb.field:
+                        if other is not f and other.HasField("oneof_index") and other.oneof_index >= nreal:
+                            other.oneof_index += 1
+                    names.insert(nreal, oneof)
+                    del self.pb.oneof_decl[:]
+                    for n in names:
+                        self.pb.oneof_decl.add(name=n)
+                else:
+                    self.pb.oneof_decl.add(name=oneof)
+                    names.append(oneof)
             f.oneof_index = names.index(oneof)
         if optional:
             f.proto3_optional = True
